@@ -55,6 +55,8 @@ pub struct Loader {
     rules: HashMap<String, SmallMap<String, eval::EvalString<String>>>,
     pools: SmallMap<String, usize>,
     builddir: Option<String>,
+    /// Files currently being read via include/subninja, outermost first.
+    reading: Vec<FileId>,
 }
 
 impl Loader {
@@ -210,12 +212,22 @@ impl Loader {
             match stmt {
                 Statement::Include(in_path) | Statement::Subninja(in_path) => {
                     let id = self.evaluate_path(in_path, &[&parser.vars])?;
+                    if self.reading.contains(&id) {
+                        bail!(
+                            "{}: {} includes itself",
+                            filename.display(),
+                            self.graph.file(id).name
+                        );
+                    }
                     let (path, bytes) = self.read_file_by_id(id)?;
                     let bytes = std::rc::Rc::new(bytes);
                     let mut sub_parser = parse::Parser::new(&bytes);
 
                     sub_parser.inherit(&parser);
-                    self.parse_with_parser(&mut sub_parser, path, envs)?;
+                    self.reading.push(id);
+                    let result = self.parse_with_parser(&mut sub_parser, path, envs);
+                    self.reading.pop();
+                    result?;
                 }
 
                 Statement::Default(defaults) => {
